@@ -47,3 +47,17 @@ Theorem C14_go_rest_irrelevant :
     g_pulled (go cf ((fname, evs1) :: nil) b) = g_pulled (go cf ((fname, evs2) :: nil) b).
 Proof. exact go_take_independent_of_rest. Qed.
 Print Assumptions C14_go_rest_irrelevant.
+
+(* known finding K6: over a LIST of inputs the statement "once T rows have been emitted nothing more is consumed"
+   is false of the faithful model (and of the code: the check replays the witness on the real binary with a named
+   pipe as second file): the only row comes from the first input (8 bytes) and all 24 bytes of the second one are
+   pulled afterwards.  Inside one input the statement holds (C14_go_rest_irrelevant). *)
+From Jawk Require Import K6Witness.
+Theorem C14_later_inputs_refuted :
+  exists cf ins, c_take cf = Some 1%N /\ c_sort cf = nil /\ c_group cf = None /\
+    g_result (go cf ins false) = GOk /\
+    g_events (go cf ins false) = (OOut (123 :: 34 :: 97 :: 34 :: 58 :: 32 :: 49 :: 125 :: 10 :: nil)%N :: nil) /\
+    g_pulled (go cf ins false) = (8 :: 24 :: nil)%N /\
+    (exists n1 e1 n2 e2, ins = ((n1, e1) :: (n2, e2) :: nil) /\ length e1 = 8 /\ length e2 = 24).
+Proof. exact later_inputs_read_after_break. Qed.
+Print Assumptions C14_later_inputs_refuted.
